@@ -170,6 +170,20 @@ theorem Scn.removeLanelets_inv' (Q : Net → Prop) (s : Scn) (args : List RmArg)
           | none =>
             exact Scn.loop_inv' loopShape_lanelets Q s2 _ hl h2
 
+theorem Scn.removeHanging_inv' (Q : Net → Prop) (s : Scn) (args : List RmArg)
+    (hs : ∀ n, ∀ i ∈ s.net.hangingSigns args, Q n → Q (n.removeSign i))
+    (ht : ∀ n, ∀ i ∈ s.net.hangingLights args, Q n → Q (n.removeLight i))
+    (h : Q s.net) : Q (s.removeHanging args).1.net := by
+  unfold Scn.removeHanging
+  dsimp only
+  have h1 := Scn.loop_inv' loopShape_signs Q s _ hs h
+  cases hr : s.removeSigns (s.net.hangingSigns args) with
+  | mk s1 e =>
+    rw [hr] at h1
+    cases e with
+    | some e => exact h1
+    | none => exact Scn.loop_inv' loopShape_lights Q s1 _ ht h1
+
 /-- the three loops of `Scenario.remove_lanelet(…, referenced_elements=True)` all ran to the end -/
 theorem Scn.removeLanelets_done (s : Scn) (args : List RmArg) (h : (s.removeLanelets args true).2 = none) :
     ∃ s1 s2, s.removeSigns (s.net.hangingSigns args) = (s1, none) ∧
